@@ -73,7 +73,8 @@ def main():
     if not os.path.exists(verif):
         sh(["rsync", "-a", "--exclude", "replays", "--exclude", "seeded", "--exclude", "benign", "/verif/", verif + "/"])
         ct = os.path.join(verif, "harness/Cargo.toml")
-        open(ct, "w").write(open(ct).read().replace('path = "/repo"', f'path = "{repo}"'))
+        txt = open(ct).read().replace('path = "/repo"', f'path = "{repo}"')
+        open(ct, "w").write(txt)
     rnd = random.Random(seed)
     cand = sites(repo)
     rnd.shuffle(cand)
